@@ -94,7 +94,7 @@ Proof. reflexivity. Qed.
 
 (* a child that exits while the unit is simply running: no signal is sent by that step *)
 Lemma child_exit_running tbl cfg s ok :
-  ph s = PRunning -> ucore tbl cfg s (AChildExit ok) = Ok (with_ph (with_reaped s true ok) PExiting, []).
+  ph s = PRunning -> ucore tbl cfg s (AChildExit ok) = Ok (with_ph (with_reaped s true ok) (after_exit s), []).
 Proof. intros Hp. unfold ucore. rewrite Hp. reflexivity. Qed.
 
 (* information requests: exactly one response, tagged with the loop the unit is in; the state is
@@ -258,10 +258,12 @@ Proof.
 Qed.
 
 Ltac frame_tac Hp :=
-  unfold rem_isl, past_timeout, leave_terminate;
+  unfold rem_isl, past_timeout, leave_terminate, after_exit;
   cbn [fst with_ph with_ck with_reaped with_fds_done with_leaked with_timed_out set_wsw set_gsl
        mk hits ck timed_out ph k_isl];
-  rewrite ?Hp; repeat split; try reflexivity;
+  rewrite ?Hp;
+  try match goal with |- context [if ?b then PDone else PExiting] => destruct b end;
+  repeat split; try reflexivity;
   intuition (try discriminate; try congruence).
 
 Lemma other_steps_frame tbl cfg s e r :
